@@ -20,6 +20,13 @@ The verdict uses the wire replies and accept()/handler deliveries only (the priv
 A failure that hypothesis cannot reproduce from the history alone (state left behind by transports of an earlier history of
 the process) is still reported: the case file then carries "earlier_in_process" and replay() re-creates that state first.
 
+Server messages may also arrive WHILE a client request is in flight: request_x11 / request_port_forward / cancel_port_forward
+carry a generated list of 0-2 server-initiated actions (CHANNEL_OPEN of any kind, GLOBAL_REQUEST, CHANNEL_REQUEST) that the puppet
+sends after it has received the client's request and BEFORE it answers it (grant or refusal, as drawn). A request that has not
+been answered has enabled nothing: an open arriving inside the window of a request that is then REFUSED must be refused (the
+kind was never enabled); inside the window of a request that is then granted acceptance is tolerated, not demanded (whether
+"enabled" starts with the request or with the reply the statement does not say).
+
 The harness drives one operation at a time and closes it with a sentinel (an unhandled message
 type whose UNIMPLEMENTED echo carries the sentinel's sequence number), so that everything the client
 sent in reaction to the operation is in the puppet's log when the oracle runs: no sleeps.
@@ -57,8 +64,12 @@ RULE = (
     "handler for / pool / random, exec command and terminal name from pools) on client- or server-opened channels, "
     "server-mode configuration of the client transport (set_subsystem_handler(name) with a recording handler, add_server_key), "
     "client request_x11 (granted/refused), request_forward_agent, request_port_forward (granted/refused, handler/accept queue), "
-    "cancel_port_forward, open/close client channel, new transport, close transport; non-trivial = history with a server-initiated "
-    "action after an enable (on this or another transport of the history), after a cancel or after a server-mode configuration call; "
+    "cancel_port_forward, open/close client channel, new transport, close transport; request_x11 / request_port_forward / cancel_port_forward "
+    "carry 0-2 generated server actions (open / global request / channel request) that the server sends while the client's request is in flight, "
+    "i.e. between receiving it and answering it (an open inside the window of a request that is then refused must be refused); "
+    "non-trivial = history with a server-initiated "
+    "action after an enable (on this or another transport of the history), after a cancel, after a server-mode configuration call or inside "
+    "the in-flight window of a client request; "
     "distinct by the operation list"
 )
 
@@ -210,6 +221,7 @@ class Conn:
         self.after_config = False
         self.subsys = set()  # names this client registered a subsystem handler for (set_subsystem_handler on a CLIENT transport)
         self.started = []  # (name, stage) of registered handlers a server request got instantiated / started
+        self.inflight = None  # (client op, "granted"/"refused", kind it would enable) while a client request awaits its reply
 
     # ------------------------------------------------------------------ plumbing
     def close(self):
@@ -300,12 +312,36 @@ class Conn:
     def _server_action(self):
         if self.after_enable or self.after_cancel or self.after_config or any(c.after_enable for c in self.sess.conns) or self.sess.closed_enabled:
             self.sess.nontrivial = True
+        if self.inflight:
+            self.sess.nontrivial = True
+            self.classes.append("action-while-client-request-in-flight")
         if self.after_config:
             self.classes.append("action-after-server-mode-config")
         if self.after_enable:
             self.classes.append("action-after-enable")
         if self.after_cancel:
             self.classes.append("action-after-cancel")
+
+    def _during(self, op, name, granted, kind):
+        """The server-initiated actions the puppet sends between receiving the client's request and answering it."""
+        subs = op.get("inflight") or []
+        if not subs:
+            return
+        self.inflight = (name, "granted" if granted else "refused", kind)
+        try:
+            for sub in subs:
+                if sub["op"] not in ("sopen", "global", "creq") or (sub["op"] == "creq" and not self.chans):
+                    continue
+                what = sub.get("kind") if sub["op"] == "sopen" else sub.get("name")
+                known = OPEN_KINDS if sub["op"] == "sopen" else GLOBAL_NAMES if sub["op"] == "global" else REQ_NAMES
+                self.classes.append("inflight:%s-%s:%s:%s" % (name, self.inflight[1], sub["op"], _name_class(what, known)))
+                getattr(self, "op_" + sub["op"])(sub)
+        finally:
+            self.inflight = None
+
+    def _pending(self, kind):
+        """The kind would be enabled by the request in flight, which the server is going to grant."""
+        return bool(self.inflight) and self.inflight[1] == "granted" and self.inflight[2] == kind
 
     def op_copen(self, op):
         th, res = self.call(lambda: self.tc.open_session(timeout=TO))
@@ -369,7 +405,13 @@ class Conn:
         self.handled = []
         en = self.enabled(kind)
         kc = _name_class(kind, OPEN_KINDS)
+        if not en and self._pending(kind):
+            # the request that enables the kind is in flight and will be granted: acceptance tolerated, not demanded
+            en = True
+            self.classes.append("open:%s:request-enabling-it-in-flight" % kc)
         self.classes.append("open:%s:%s" % (kc, "enabled" if en else "not-enabled"))
+        if not en and self.inflight and self.inflight[2] == kind:
+            self.classes.append("open:%s:inside-window-of-a-request-that-is-refused" % kc)
         if kind == "forwarded-tcpip" and self.after_cancel and not en:
             self.classes.append("open:forwarded-tcpip:after-cancel")
         if not en:
@@ -406,7 +448,10 @@ class Conn:
                 self.fail("channel-open-delivery", "refused-channel-delivered:%s" % kc, "replies %r delivered %d" % ([(e[1]) for e in replies], len(delivered)))
 
     def _state(self):
-        return "x11=%d,agent=%d,tcp=%d,cancelled=%d" % (self.x11, self.agent, bool(self.tcp), self.after_cancel)
+        st_ = "x11=%d,agent=%d,tcp=%d,cancelled=%d" % (self.x11, self.agent, bool(self.tcp), self.after_cancel)
+        if self.inflight:
+            st_ += ",in-flight=%s-%s" % self.inflight[:2]
+        return st_
 
     def _req_rest(self, op):
         n = op["name"]
@@ -479,6 +524,7 @@ class Conn:
         handler = (lambda chan, addr: self.handled.append(chan)) if op["handler"] else None
         th, res = self.call(lambda: ch["c"].request_x11(screen_number=op.get("screen", 0), handler=handler))
         self.wait_msg(lambda e: e[1] == 98 and e[2][:4] == R.u32(ch["pid"]) and b"x11-req" in e[2][:16], "x11-req")
+        self._during(op, "x11-req", op["grant"], "x11")
         if op["grant"]:
             self.ts.send_raw_seq(peers.m_channel_success(ch["cid"]))
             self.join(th, "request_x11")
@@ -513,6 +559,7 @@ class Conn:
         handler = (lambda chan, src, dst: self.handled.append(chan)) if op["handler"] else None
         th, res = self.call(lambda: self.tc.request_port_forward(op["addr"], op["port"], handler))
         self.wait_msg(lambda e: e[1] == 80 and e[2][4:17] == b"tcpip-forward", "tcpip-forward")
+        self._during(op, "tcpip-forward", op["grant"], "forwarded-tcpip")
         if op["grant"]:
             self.ts.send_raw_seq(peers.m_request_success(R.u32(5555) if op["port"] == 0 else b""))
         else:
@@ -536,6 +583,7 @@ class Conn:
             addr, port = "0.0.0.0", 1
         th, res = self.call(lambda: self.tc.cancel_port_forward(addr, port))
         self.wait_msg(lambda e: e[1] == 80 and e[2][4:24] == b"cancel-tcpip-forward", "cancel-tcpip-forward")
+        self._during(op, "cancel-tcpip-forward", op["grant"], None)
         self.ts.send_raw_seq(peers.m_request_success() if op["grant"] else peers.m_request_failure())
         self.join(th, "cancel_port_forward")
         if op["grant"]:
@@ -596,6 +644,31 @@ def run(ctx):
     # subsystem handlers registered while a transport is set up: none (half of the transports) or 1-2 names
     setup_subsys = st.one_of(st.just([]), st.lists(st.one_of(st.sampled_from(SUBSYS_POOL), rand_name), min_size=1, max_size=2, unique=True))
 
+    # server-initiated actions sent while a client request is in flight (same shapes as the rules below; same transport)
+    open_act = lambda kinds: st.builds(  # noqa: E731
+        lambda kind, window, maxpkt, addr, port, rest: {"op": "sopen", "kind": kind, "window": window, "maxpkt": maxpkt, "addr": addr, "port": port, "rest": rest},
+        kinds, win, pkt, addrs, ports, small_rest,
+    )
+    other_action = st.one_of(
+        open_act(st.sampled_from(FORWARD_KINDS)),
+        open_act(st.one_of(st.sampled_from(OPEN_KINDS), rand_name)),
+        st.builds(
+            lambda name, want, rest, addr, port: {"op": "global", "name": name, "want": want, "rest": R.string(addr.encode()) + R.u32(port) if name in ("tcpip-forward", "cancel-tcpip-forward") else rest},
+            st.one_of(st.sampled_from(GLOBAL_NAMES), rand_name), st.booleans(), small_rest, addrs, ports,
+        ),
+        st.builds(
+            lambda chan, name, want, sub, arg: {"op": "creq", "chan": chan, "name": name, "want": want, "rest": b"", "status": 0, "sub": sub, "arg": arg},
+            st.integers(0, 7), st.one_of(st.sampled_from(REQ_NAMES), st.sampled_from(RUN_REQS)), st.booleans(), sub_name, st.integers(0, 3),
+        ),
+    )
+
+    def inflight(kind, empty=True):
+        """0-2 actions for the window of a request that would enable `kind` (None: a cancel): one action in three is an open
+        of exactly that kind."""
+        act = other_action if kind is None else st.integers(0, 2).flatmap(lambda k: open_act(st.just(kind)) if k == 0 else other_action)
+        some = st.lists(act, min_size=1, max_size=2)
+        return st.one_of(st.just([]), some) if empty else some
+
     class Machine(RuleBasedStateMachine):
         def __init__(self):
             RuleBasedStateMachine.__init__(self)
@@ -653,21 +726,29 @@ def run(ctx):
         def client_server_mode_config(self, conn, what, name, key):
             self._do({"op": "srvconf", "conn": conn, "what": what, "name": name, "key": key})
 
-        @rule(conn=conn_ix, chan=st.integers(0, 7), grant=st.booleans(), handler=st.booleans(), screen=st.integers(0, 3))
-        def client_x11(self, conn, chan, grant, handler, screen):
-            self._do({"op": "x11", "conn": conn, "chan": chan, "grant": grant, "handler": handler, "screen": screen})
+        @rule(conn=conn_ix, chan=st.integers(0, 7), grant=st.booleans(), handler=st.booleans(), screen=st.integers(0, 3), during=inflight("x11"))
+        def client_x11(self, conn, chan, grant, handler, screen, during):
+            self._do({"op": "x11", "conn": conn, "chan": chan, "grant": grant, "handler": handler, "screen": screen, "inflight": during})
 
         @rule(conn=conn_ix, chan=st.integers(0, 7))
         def client_agent(self, conn, chan):
             self._do({"op": "agent", "conn": conn, "chan": chan})
 
-        @rule(conn=conn_ix, addr=addrs, port=ports, grant=st.sampled_from([True, True, True, False]), handler=st.booleans())
-        def client_forward(self, conn, addr, port, grant, handler):
-            self._do({"op": "fwd", "conn": conn, "addr": addr, "port": port, "grant": grant, "handler": handler})
+        @rule(conn=conn_ix, addr=addrs, port=ports, grant=st.sampled_from([True, True, True, False]), handler=st.booleans(), during=inflight("forwarded-tcpip"))
+        def client_forward(self, conn, addr, port, grant, handler, during):
+            self._do({"op": "fwd", "conn": conn, "addr": addr, "port": port, "grant": grant, "handler": handler, "inflight": during})
 
-        @rule(conn=conn_ix, which=st.integers(0, 3), grant=st.sampled_from([True, True, True, False]))
-        def client_cancel(self, conn, which, grant):
-            self._do({"op": "cancel", "conn": conn, "which": which, "grant": grant})
+        @rule(conn=conn_ix, which=st.integers(0, 3), grant=st.sampled_from([True, True, True, False]), during=inflight(None))
+        def client_cancel(self, conn, which, grant, during):
+            self._do({"op": "cancel", "conn": conn, "which": which, "grant": grant, "inflight": during})
+
+        @rule(conn=conn_ix, what=st.sampled_from(["fwd", "fwd", "x11"]), chan=st.integers(0, 7), addr=addrs, port=ports, grant=st.booleans(), handler=st.booleans(), data=st.data())
+        def client_enable_with_server_traffic_in_flight(self, conn, what, chan, addr, port, grant, handler, data):
+            during = data.draw(inflight("forwarded-tcpip" if what == "fwd" else "x11", empty=False))
+            if what == "fwd":
+                self._do({"op": "fwd", "conn": conn, "addr": addr, "port": port, "grant": grant, "handler": handler, "inflight": during})
+            else:
+                self._do({"op": "x11", "conn": conn, "chan": chan, "grant": grant, "handler": handler, "screen": 0, "inflight": during})
 
         @rule(conn=conn_ix)
         def client_open(self, conn):
